@@ -8,6 +8,8 @@ import (
 	"fmt"
 	"go/ast"
 	"go/token"
+	"go/types"
+	"strings"
 )
 
 // enclosingLoops returns the for/range statements enclosing n inside fn (not crossing function literals),
@@ -141,4 +143,151 @@ func fullRange(s ast.Stmt) bool {
 		return false
 	}
 	return true
+}
+
+// ---- every loop runs to completion ---------------------------------------------------------------------------
+// Of the 70 loops in the pinned first-party code 57 have no early exit at all; of the other 13, 6 only leave with
+// an error, 4 are pure searches, 1 spells its loop condition as a leading `if … { break }`. The two that remain
+// are listed below with their reason. A loop that acquires a new way out stops processing the rest of its
+// elements: predecessor links that are not signed, indexed or written, heads that are not published, bounds that
+// are not looked at.
+
+var loopExitExemptions = map[string]string{
+	"ipfslog.(*IPFSLog).traverse|for": "the traversal stops at the requested end hash (decided by R-C03.4 / R-C15.5)",
+	"entry.(*Fetcher).processQueue|for": "the dispatcher gives up when no slot can be acquired (context cancelled); the wait for running workers follows (R-C11.1)",
+}
+
+// searchLoop: the loop only looks for an element — its body is a sequence of `if` statements (no else) whose
+// bodies assign locals and/or leave; nothing is accumulated or written on the way.
+func searchLoop(p *Prog, fn *Fn, body *ast.BlockStmt) bool {
+	for _, st := range body.List {
+		ifs, ok := st.(*ast.IfStmt)
+		if !ok || ifs.Else != nil {
+			return false
+		}
+		for _, bs := range ifs.Body.List {
+			switch x := bs.(type) {
+			case *ast.BranchStmt, *ast.ReturnStmt:
+			case *ast.AssignStmt:
+				for _, l := range x.Lhs {
+					if _, ok := ast.Unparen(l).(*ast.Ident); !ok {
+						return false
+					}
+				}
+				for _, rv := range x.Rhs {
+					if call, ok := ast.Unparen(rv).(*ast.CallExpr); ok && p.Builtin(fn, call) == "append" {
+						return false
+					}
+				}
+			default:
+				return false
+			}
+		}
+	}
+	return true
+}
+
+type loopExit struct {
+	Fn   *Fn
+	Loop ast.Stmt
+	Desc string
+	Exit ast.Node
+	What string
+}
+
+// earlyLoopExits lists the ways out of the loops of fn that are neither error returns, nor part of a search,
+// nor the loop's own condition written as a leading `if cond { break }`.
+func earlyLoopExits(p *Prog, fn *Fn) (loops int, exits []loopExit) {
+	walkNoLit(fn.Body, func(n ast.Node) bool {
+		var body *ast.BlockStmt
+		desc := ""
+		switch x := n.(type) {
+		case *ast.ForStmt:
+			body, desc = x.Body, "for"
+		case *ast.RangeStmt:
+			body, desc = x.Body, "range "+types.ExprString(x.X)
+		default:
+			return true
+		}
+		loops++
+		if searchLoop(p, fn, body) {
+			return true
+		}
+		var leading ast.Node
+		if fs, ok := n.(*ast.ForStmt); ok && fs.Cond == nil && len(body.List) > 0 {
+			if ifs, ok := body.List[0].(*ast.IfStmt); ok && ifs.Else == nil && len(ifs.Body.List) == 1 {
+				if br, ok := ifs.Body.List[0].(*ast.BranchStmt); ok && br.Tok == token.BREAK && br.Label == nil {
+					leading = br
+				}
+			}
+		}
+		walkNoLit(body, func(m ast.Node) bool {
+			switch y := m.(type) {
+			case *ast.BranchStmt:
+				if y == leading {
+					return true
+				}
+				switch y.Tok {
+				case token.GOTO:
+					exits = append(exits, loopExit{fn, n.(ast.Stmt), desc, y, "goto"})
+				case token.BREAK:
+					if t := branchTarget(p, y); t == nil || t == n || !insideNode(p, t, n) {
+						exits = append(exits, loopExit{fn, n.(ast.Stmt), desc, y, "break"})
+					}
+				}
+			case *ast.ReturnStmt:
+				// returning a failure aborts the operation, it does not truncate it
+				if len(y.Results) > 0 {
+					last := ast.Unparen(y.Results[len(y.Results)-1])
+					if id, ok := last.(*ast.Ident); !ok || id.Name != "nil" {
+						if fnReturnsError(p, fn) {
+							return true
+						}
+					}
+				}
+				exits = append(exits, loopExit{fn, n.(ast.Stmt), desc, y, "return"})
+			}
+			return true
+		})
+		return true
+	})
+	return
+}
+
+// loopsComplete arms the rule over the functions selected by scope.
+func loopsComplete(c *Ctx, r *Report, rule string, scope func(*Fn) bool, consequence string) {
+	p := c.P
+	nl, nbad := 0, 0
+	for _, fn := range p.Fns {
+		if fn.Orig != nil || !p.firstParty(fn.Pkg.Types) || !scope(fn) {
+			continue
+		}
+		loops, exits := earlyLoopExits(p, fn)
+		nl += loops
+		for _, e := range exits {
+			kind := "range"
+			if _, ok := e.Loop.(*ast.ForStmt); ok {
+				kind = "for"
+			}
+			if why, ok := loopExitExemptions[fn.Name+"|"+kind]; ok {
+				r.List("loop in %s leaves early at %s: %s", fn.Name, p.Pos(e.Exit.Pos()), why)
+				continue
+			}
+			nbad++
+			r.Violate(rule, r.Key(rule, fn, "loop-exit", e.Desc), e.Exit.Pos(), fmt.Sprintf("the loop over %s in %s can be left by the %s at %s before every element was processed: %s", strings.TrimPrefix(e.Desc, "range "), fn.Name, e.What, p.Pos(e.Exit.Pos()), consequence))
+		}
+	}
+	if nbad == 0 {
+		r.Hold(rule, r.Key(rule, nil, "loops-complete", ""), token.NoPos, true, fmt.Sprintf("%d loops in scope process every element (error returns, searches and the two listed stops aside)", nl))
+	}
+	r.Floor(rule, "loops in scope", nl, 1)
+}
+
+// fnReturnsError: the last declared result of fn (or of the literal) is an error.
+func fnReturnsError(p *Prog, fn *Fn) bool {
+	if fn.Type == nil || fn.Type.Results == nil || len(fn.Type.Results.List) == 0 {
+		return false
+	}
+	f := fn.Type.Results.List[len(fn.Type.Results.List)-1]
+	return isErrorType(fn.Pkg.TypesInfo.TypeOf(f.Type))
 }
